@@ -1773,7 +1773,7 @@ class C09(Check):
               'attempts_sieve': 4500, 'attempts_maildir': 3000,
               'attempts_tls': 7500, 'attempts_peer_remote': 7000,
               'attempts_with_invalid_user_sleep': 2000}
-    time_cap = {'quick': 60.0, 'thorough': 600.0}
+    time_cap = {'quick': 180.0, 'thorough': 900.0}
 
     def cases(self, tier: str, seed: int) -> Iterable[dict[str, Any]]:
         n = 12000 if tier == 'quick' else 180000
